@@ -3,7 +3,7 @@ import sys
 
 from .._core.loop import Interrupt as CoreInterrupt
 from .._core.handler import __USIM_STATE__
-from .notification import Notification
+from .notification import Notification, postpone
 from .flag import Flag
 from .task import Task, TaskClosed, TaskCancelled, try_close
 from .concurrent_exception import Concurrent
@@ -260,6 +260,9 @@ class Scope:
                         raise
                 finally:
                     self._handled_on_entry = None
+                # Our interrupt has cut the postponement above short: whoever was queued
+                # behind it has not run yet, and still gets to run before we are done.
+                await postpone()
                 return True
         # there was an exception, we have to abandon the scope fast
         # we do not want interrupts that conflict with our current exception
